@@ -238,7 +238,7 @@ func checkC01(c *Ctx, r *Report) {
 				return
 			}
 			fv, base, is := fieldOf(st.Addr)
-			if !is || fv.Name() != "Size" || !strings.HasPrefix(structName(base.Type()), cachePkg+".EntryMetadata") {
+			if !is || fname(fv) != "Size" || !strings.HasPrefix(structName(base.Type()), cachePkg+".EntryMetadata") {
 				return
 			}
 			v := unconvNum(st.Val)
@@ -405,7 +405,7 @@ func checkSizeIsCount(c *Ctx, r *Report, f *ssa.Function, copyCall *ssa.Call, ru
 			return
 		}
 		fv, base, is := fieldOf(st.Addr)
-		if !is || fv.Name() != "Size" || !strings.HasPrefix(structName(base.Type()), cachePkg+".EntryMetadata") {
+		if !is || fname(fv) != "Size" || !strings.HasPrefix(structName(base.Type()), cachePkg+".EntryMetadata") {
 			return
 		}
 		if e, isE := unconvNum(st.Val).(*ssa.Extract); isE && e.Tuple == ssa.Value(copyCall) && e.Index == 0 {
@@ -528,7 +528,7 @@ func checkC11(c *Ctx, r *Report) {
 						return
 					}
 				}
-				switch fv.Name() {
+				switch fname(fv) {
 				case "NotBefore":
 					nb = atomStr(st.Val)
 				case "NotAfter":
@@ -709,7 +709,7 @@ func checkC11(c *Ctx, r *Report) {
 				if !isSt || gc == nil {
 					return
 				}
-				if fv, _, is := fieldOf(st.Addr); is && fv.Name() == "Certificates" {
+				if fv, _, is := fieldOf(st.Addr); is && fname(fv) == "Certificates" {
 					if derivesFromDeep(st.Val, hc.ctx, func(v ssa.Value, _ dctx) bool {
 						e, isE := v.(*ssa.Extract)
 						return isE && e.Tuple == ssa.Value(gc) && e.Index == 0
